@@ -22,3 +22,25 @@ func (dsp *DataStreamProcessor) VerifAnalyzeBatch(datas [][]uint16, presamples i
 	}
 	return out
 }
+
+// VerifHeld keeps the records of one AnalyzeData call WITHOUT copying anything out of them, the way the
+// publisher's consumers (summary messages, OFF writer) hold records while later blocks are analysed.
+type VerifHeld struct{ recs []*DataRecord }
+
+// VerifAnalyzeHeld runs AnalyzeData once on the given records and returns them held; their values are read
+// later, on demand, with Read.
+func (dsp *DataStreamProcessor) VerifAnalyzeHeld(datas [][]uint16, presamples int, signed bool) *VerifHeld {
+	recs := make([]*DataRecord, len(datas))
+	for k, data := range datas {
+		raw := make([]RawType, len(data))
+		for i, v := range data {
+			raw[i] = RawType(v)
+		}
+		recs[k] = &DataRecord{data: raw, presamples: presamples, signed: signed, channelIndex: dsp.channelIndex}
+	}
+	dsp.AnalyzeData(recs)
+	return &VerifHeld{recs: recs}
+}
+
+// Read projects record k as it is NOW.
+func (h *VerifHeld) Read(k int) VerifRecord { return verifRecord(h.recs[k]) }
